@@ -93,7 +93,9 @@ class H3Ops:
                 return None
             else:
                 # get the kth ring
-                ring = h3.k_ring(search_geoid, current_k)
+                # k_ring returns a set: visit its cells in a fixed order, since among equally
+                # distant entities the first one encountered wins
+                ring = sorted(h3.k_ring(search_geoid, current_k))
 
                 # get all entities in this ring
                 found = (
